@@ -280,8 +280,9 @@ def tenc (n : Nat) (p : Bytes) : Bytes := p ++ List.replicate 16 (UInt8.ofNat n)
 def twire : Bytes :=
   tenc 5 (toyCodecT.enc tseg1.md) ++ tenc 6 tseg1.payload ++ tenc 7 (toyCodecT.enc tseg2.md) ++ tenc 8 tseg2.payload
 
-/-- the genuine stream is decoded completely; with one payload byte flipped the first segment's
-    metadata… nothing of it is delivered and the receiver is dead; the same holds for a flipped tag -/
+/-- the genuine stream is decoded completely; with one byte of the first payload changed nothing is
+    delivered and the receiver is dead; with one byte of the second payload's tag changed exactly the
+    first segment is delivered -/
 example :
     (feedF (toyOpenT toyCodecT 5 [tseg1, tseg2]) toyCodecT 4 ⟨5, [], [], false⟩ twire).out
       = [(tseg1.md, tseg1.payload), (tseg2.md, tseg2.payload)] ∧
